@@ -186,7 +186,37 @@ func ProveLemma(prog *Prog, specs *Specs, l *Lemma, tier string) (res []OblResul
 	return ProveLemmaCtx(prog, specs, l, tier, nil)
 }
 
+// ProveLemmaCtx proves each `ensures` in a context of its own (only the calls
+// that goal mentions are unfolded), which keeps the queries small.
 func ProveLemmaCtx(prog *Prog, specs *Specs, l *Lemma, tier string, c *checkCtx) (res []OblResult) {
+	if len(l.Ensures) <= 1 {
+		return proveLemmaPart(prog, specs, l, tier, c, 0)
+	}
+	parts := make([][]OblResult, len(l.Ensures))
+	var wg sync.WaitGroup
+	for i := range l.Ensures {
+		li := *l
+		li.Ensures = []string{l.Ensures[i]}
+		if i > 0 {
+			li.NoRead = nil
+		}
+		wg.Add(1)
+		go func(i int, li Lemma) {
+			defer wg.Done()
+			parts[i] = proveLemmaPart(prog, specs, &li, tier, c, i)
+		}(i, li)
+	}
+	wg.Wait()
+	for i := range parts {
+		for j := range parts[i] {
+			parts[i][j].Lemma = l
+		}
+		res = append(res, parts[i]...)
+	}
+	return res
+}
+
+func proveLemmaPart(prog *Prog, specs *Specs, l *Lemma, tier string, c *checkCtx, off int) (res []OblResult) {
 	pkg := prog.PPkgs[specs.PkgPath].Types
 	x := NewX(prog, specs, modeSummary)
 	x.unfold = map[string]bool{}
@@ -195,7 +225,7 @@ func ProveLemmaCtx(prog *Prog, specs *Specs, l *Lemma, tier string, c *checkCtx)
 	}
 	x.noOblig++
 	x.curFn = "lemma:" + l.Name
-	name := func(i int) string { return fmt.Sprintf("lemma:%s.%s#%d", specs.PkgName, l.Name, i+1) }
+	name := func(i int) string { return fmt.Sprintf("lemma:%s.%s#%d", specs.PkgName, l.Name, i+1+off) }
 	defer func() {
 		if r := recover(); r != nil {
 			u, ok := r.(unsupported)
@@ -209,9 +239,11 @@ func ProveLemmaCtx(prog *Prog, specs *Specs, l *Lemma, tier string, c *checkCtx)
 		}
 	}()
 	env := x.bindVars(pkg, l.Vars)
+	x.polarity = -1
 	for _, r := range l.Requires {
 		x.sc.Assert(x.evalBool(env, r))
 	}
+	x.polarity = 1
 	var known []string
 	for _, k := range l.Known {
 		c := x.evalBool(env, k.When)
@@ -223,7 +255,7 @@ func ProveLemmaCtx(prog *Prog, specs *Specs, l *Lemma, tier string, c *checkCtx)
 	for _, e := range l.Ensures {
 		goals = append(goals, x.evalBool(env, e))
 	}
-	x.polarity = 0
+	x.polarity = 1
 	var splitTerms [][]string
 	for _, alts := range l.Splits {
 		var ts []string
@@ -241,21 +273,6 @@ func ProveLemmaCtx(prog *Prog, specs *Specs, l *Lemma, tier string, c *checkCtx)
 			for _, s := range x.flatten(x.evalSrc(env, e).V) {
 				showTerms = append(showTerms, s.T)
 			}
-		}
-	}
-	// Universally quantified sub-formulas of a goal are skolemised by hand: proving the goal
-	// with the instance at a fresh constant (for every value of it) implies the goal, and
-	// the constant becomes an instantiation point for the summaries.
-	for gi := range goals {
-		for _, q := range x.quants {
-			if q.pol != 1 || q.lo == "" || !strings.HasPrefix(q.guard, "(forall ") || !strings.Contains(goals[gi], q.guard) {
-				continue
-			}
-			sk := x.sc.Fresh("sk", SInt)
-			inst := fmt.Sprintf("(=> (and (<= %s %s) (< %s %s)) (%s %s))", q.lo, sk, sk, q.hi, q.fn, sk)
-			goals[gi] = strings.ReplaceAll(goals[gi], q.guard, inst)
-			x.witnesses = append(x.witnesses, sk)
-			x.witClass[sk] = "*"
 		}
 	}
 	// axioms for opaque functions used (closure)
@@ -291,35 +308,9 @@ func ProveLemmaCtx(prog *Prog, specs *Specs, l *Lemma, tier string, c *checkCtx)
 			}
 		}
 	}
-	// instantiate bounded quantifiers at every witness
+	// instantiate the quantified facts at every witness, skolem constant and index term
 	if !l.NoInst {
-		for _, q := range x.quants {
-			var points []string
-			for _, w := range x.witnesses {
-				if q.class != "" && x.witClass[w] != q.class && x.witClass[w] != "*" {
-					continue
-				}
-				points = append(points, w)
-				if x.witClass[w] == "*" {
-					// goal skolems: range loops count from -1, so the neighbours matter too
-					points = append(points, "(- "+w+" 1)", "(+ "+w+" 1)")
-				}
-			}
-			if q.hi != "" && isAtom(q.hi) {
-				points = append(points, "(- "+q.hi+" 1)")
-			}
-			for _, w := range points {
-				inst := "(" + q.fn + " " + w + ")"
-				var rng []string
-				if q.lo != "" {
-					rng = append(rng, fmt.Sprintf("(<= %s %s)", q.lo, w))
-				}
-				if q.hi != "" {
-					rng = append(rng, fmt.Sprintf("(< %s %s)", w, q.hi))
-				}
-				x.sc.Assert(implies(and(q.guard, and(rng...)), inst))
-			}
-		}
+		x.sc.add(x.instances(len(x.sc.lines)))
 	}
 	if c != nil {
 		c.mu.Lock()
@@ -481,7 +472,7 @@ func decide(name, q string, timeout int, thorough bool) OblResult {
 		r  SolveResult
 		qf bool
 	}
-	ch := make(chan ans, 2)
+	ch := make(chan ans, 3)
 	fullq := q
 	q = instVariant(q)
 	if thorough || quantifiedGoal(fullq) {
@@ -494,6 +485,18 @@ func decide(name, q string, timeout int, thorough bool) OblResult {
 		n = 2
 		go func() { ch <- ans{SolveOne(name+".qf", qf, timeout, "z3-new-5.1.0"), true} }()
 	}
+	if q != fullq {
+		// the exact variant (quantifier definitions kept): an unsat answer is a proof as well
+		n++
+		go func() {
+			r := SolveOne(name+".full", fullq, timeout, "z3-new-5.1.0")
+			if r.Status == "sat" {
+				r.Status = "unknown"
+			}
+			r.Solver += " (exact quantifiers)"
+			ch <- ans{r, true}
+		}()
+	}
 	var full, weak *SolveResult
 	for i := 0; i < n; i++ {
 		a := <-ch
@@ -505,7 +508,7 @@ func decide(name, q string, timeout int, thorough bool) OblResult {
 		}
 		if r.Status == "unsat" && !thorough {
 			or.Status, or.Solver, or.Secs = "proved", r.Solver, r.Secs
-			if a.qf {
+			if a.qf && !strings.Contains(or.Solver, "exact") {
 				or.Solver += " (quantifier-free weakening)"
 			}
 			return or
